@@ -180,7 +180,7 @@ func runC20(c *Ctx) {
 				{
 					var cands []ssa.Value
 					for _, r := range Returns(h) {
-						v := r.Results[0]
+						v := ReturnOperand(r, 0)
 						if phi, ok := v.(*ssa.Phi); ok {
 							for _, e := range phi.Edges {
 								if !isBoolConst(e, false) {
@@ -233,7 +233,7 @@ func runC20(c *Ctx) {
 						edge := map[Edge]bool{{Block: hb.Index, Succ: succ}: true}
 						all, any := true, false
 						for _, r := range Returns(h) {
-							v := r.Results[0]
+							v := ReturnOperand(r, 0)
 							maybeTrue := !isBoolConst(v, false)
 							if phi, ok := v.(*ssa.Phi); ok {
 								maybeTrue = false
@@ -747,7 +747,7 @@ func evalStdlibVersion(c *Ctx, fn *ssa.Function) {
 			last := blk.Instrs[len(blk.Instrs)-1]
 			switch t := last.(type) {
 			case *ssa.Return:
-				v := t.Results[0]
+				v := ReturnOperand(t, 0)
 				if phi, ok := v.(*ssa.Phi); ok && phi.Block() == blk {
 					for i, p := range blk.Preds {
 						if p == prev {
